@@ -76,7 +76,22 @@ Definition dec_input (x : sx) : option (config * bool * list conn * list (list Z
                 | _ => None
                 end;
       Some ({| c_insecure := i; c_resource := res; c_sm_resume := r; c_mechs := ms |}, e, cs, sbs)
+  (* the same with the transport named as a fifth element of the configuration (1 ws://, 2 wss://) *)
+  | SL (SL [ins; SS res; smr; mechs; SZ _] :: sme :: conns :: more) =>
+      do i <- as_b ins; do r <- as_b smr; do ms <- as_list as_s mechs; do e <- as_b sme;
+      do cs <- as_list dec_conn conns;
+      do sbs <- match more with
+                | [] => Some []
+                | [y] => as_list (as_list as_z) y
+                | _ => None
+                end;
+      Some ({| c_insecure := i; c_resource := res; c_sm_resume := r; c_mechs := ms |}, e, cs, sbs)
   | _ => None
+  end.
+Definition dec_transport (x : sx) : transport :=
+  match x with
+  | SL (SL [_; _; _; _; SZ t] :: _) => if t =? 1 then TWs false else if t =? 2 then TWs true else TTcp
+  | _ => TTcp
   end.
 
 Definition req_sx (r : creq) : sx :=
@@ -139,4 +154,19 @@ Fixpoint full_sx (rs : list (list out * result * persist * list cev * list actio
 Definition run_typed (i : config * bool * list conn * list (list Z)) : sx :=
   let '(cfg, sme, cs, sbs) := i in SL (full_sx (run_full cfg (fresh sme) (map tconn_of cs)) sbs).
 
-Definition run_session : sx -> sx := with_input dec_input run_typed.
+(* over the WebSocket transport: connection histories without traffic *)
+Fixpoint conns_sx (rs : list (list out * result * persist)) (sbs : list (list Z)) : list sx :=
+  match rs with
+  | [] => []
+  | (w, r, p2) :: rs' =>
+      let n := Snat (count_ev EvEstablished (announce r)) in
+      SL [SL (outs_sx w (hd [] sbs) 0); result_sx r; persist_sx p2; SL []; SL [n; n]] :: conns_sx rs' (tl sbs)
+  end.
+Definition run_typed_on (t : transport) (i : config * bool * list conn * list (list Z)) : sx :=
+  let '(cfg, sme, cs, sbs) := i in SL (conns_sx (run_conns_on t cfg (fresh sme) cs) sbs).
+
+Definition run_session (x : sx) : sx :=
+  match dec_transport x with
+  | TTcp => with_input dec_input run_typed x
+  | t => with_input dec_input (run_typed_on t) x
+  end.
